@@ -434,7 +434,7 @@ def scenario(draw, tier="quick", dbs=None, finite=False, atoms_only=False, allow
         call["smallest"] = False  # the bounded DFS behind 'smallest' is exponential on big universes
     return {
         "class": cls,
-        "compressed": draw(st.sampled_from([0, 0, 0, 0, 0, 1, 1, 3, 4, 5])),  # 1: byte-encoded keys, 3: colliding hashes, 4/5: same class names in another module
+        "compressed": draw(st.sampled_from([0, 0, 0, 0, 0, 1, 1, 3, 4, 5, 6])),  # 1: byte-encoded keys, 3: colliding hashes, 4/5: same class names in another module, 6: byte-encoded with colliding hashes
         "pack": pack,
         "db": db,
         "expand_verified": True if template else draw(st.integers(0, 5)) == 0,
